@@ -722,6 +722,10 @@ func runC11(c *Ctx) {
 	checkCloseIsBarrier(c, "R10")
 	checkContextCancelledBeforeJoin(c, "R11")
 	checkHandleValidityFromTable(c, "R12")
+	checkStateSlotsServedOnce(c, "R13")
+	// R14 (shared with C07.R2): what ends the session is what the sweep reports to the objects still open — a receive
+	// loop that returns something else than the decoding error (nil) leaves them without their transfer-error notice
+	c.withRule("R14", func() { checkBadPacketEndsSession(c) })
 
 	// ---------- R8 transfer error, contexts ----------
 	{
@@ -1339,4 +1343,120 @@ func blockDistances(b *ssa.BasicBlock) map[*ssa.BasicBlock]int {
 		}
 	}
 	return d
+}
+
+// checkStateSlotsServedOnce (C11.R13): a Request's state has one slot per kind of handler object (reader, writer,
+// reader-writer; the lister has its own close).  Request.close closes, and Request.transferError notifies, the object
+// of each slot exactly once: what they assert to io.Closer / TransferError is traced back (through the accessor that
+// hands out the slots) to a load of a state field, and each of the three fields must be reached by exactly one of the
+// calls.  An accessor that returns one slot twice closes a read-write object twice and never closes a write-only one.
+func checkStateSlotsServedOnce(c *Ctx, rule string) {
+	p := c.P
+	stT := p.NamedType(p.Sftp, "state")
+	if stT == nil {
+		c.missing(rule, "state")
+		return
+	}
+	st, ok := stT.Underlying().(*types.Struct)
+	if !ok {
+		c.und(rule, "state slots", "?", "state is not a struct")
+		return
+	}
+	var slots []string
+	for i := 0; i < st.NumFields(); i++ {
+		f := st.Field(i)
+		if !types.IsInterface(f.Type()) {
+			continue
+		}
+		// the lister is closed by its own method (closeListerAt) and is not notified of transfer errors
+		if it, ok := f.Type().Underlying().(*types.Interface); ok {
+			isLister := false
+			for k := 0; k < it.NumMethods(); k++ {
+				if it.Method(k).Name() == "ListAt" {
+					isLister = true
+				}
+			}
+			if isLister {
+				continue
+			}
+		}
+		slots = append(slots, f.Name())
+	}
+	if len(slots) < 3 {
+		c.und(rule, "state slots", p.Pos(stT.Obj().Pos()), fmt.Sprintf("only %d object slots found in state (reader, writer, reader-writer expected)", len(slots)))
+		return
+	}
+	// the state field(s) a value comes from
+	var fieldsOf func(v ssa.Value, depth int) []string
+	fieldsOf = func(v ssa.Value, depth int) []string {
+		if depth > 6 || v == nil {
+			return nil
+		}
+		switch x := v.(type) {
+		case *ssa.UnOp:
+			if x.Op == token.MUL {
+				if t, name, _, ok := fieldOf(x.X); ok && typeName(t) == "state" {
+					return []string{name}
+				}
+			}
+		case *ssa.ChangeInterface:
+			return fieldsOf(x.X, depth+1)
+		case *ssa.MakeInterface:
+			return fieldsOf(x.X, depth+1)
+		case *ssa.TypeAssert:
+			return fieldsOf(x.X, depth+1)
+		case *ssa.Phi:
+			var out []string
+			for _, e := range x.Edges {
+				out = append(out, fieldsOf(e, depth+1)...)
+			}
+			return out
+		case *ssa.Extract:
+			if call, ok := x.Tuple.(*ssa.Call); ok {
+				if callee := call.Call.StaticCallee(); callee != nil && callee.Blocks != nil && inModule(callee) {
+					var out []string
+					for _, rl := range returnLeaves(callee, x.Index) {
+						out = append(out, fieldsOf(rl.v, depth+1)...)
+					}
+					return out
+				}
+			}
+			if ta, ok := x.Tuple.(*ssa.TypeAssert); ok && x.Index == 0 {
+				return fieldsOf(ta.X, depth+1)
+			}
+		case *ssa.Call:
+			if callee := x.Call.StaticCallee(); callee != nil && callee.Blocks != nil && inModule(callee) {
+				var out []string
+				for _, rl := range returnLeaves(callee, 0) {
+					out = append(out, fieldsOf(rl.v, depth+1)...)
+				}
+				return out
+			}
+		}
+		return nil
+	}
+	for _, spec := range []struct{ fn, method, verb string }{
+		{"(*Request).close", "Close", "closed"},
+		{"(*Request).transferError", "TransferError", "notified"},
+	} {
+		fn := p.Func(spec.fn)
+		if fn == nil {
+			c.missing(rule, spec.fn)
+			continue
+		}
+		count := map[string]int{}
+		eachInstr(fn, func(in ssa.Instruction) {
+			cc := callOf(in)
+			if cc == nil || !cc.IsInvoke() || cc.Method.Name() != spec.method {
+				return
+			}
+			for _, f := range fieldsOf(cc.Value, 0) {
+				count[f]++
+			}
+		})
+		for _, s := range slots {
+			c.check(count[s] == 1, rule, fmt.Sprintf("%s: the object in state.%s is %s once", spec.fn, s, spec.verb), p.Pos(fn.Pos()), "reached by exactly one "+spec.method+" call",
+				fmt.Sprintf("the object in state.%s is %s %d times by %s (the accessor hands out another slot in its place, or the same slot twice): a handler object is never %s, another one twice", s, spec.verb, count[s], spec.fn, spec.verb))
+		}
+	}
 }
